@@ -10,7 +10,7 @@ from ..model import AnalysisError, norm
 from ..mutants import Mut
 from ..rules import accum, alias, optcall, dim, noop, posbound
 from ..rules.geom import LOOP_INDEX, ClassGeom
-from ..rules.util import lin_str, linear, cfg_of, nodes_where
+from ..rules.util import callee_name, lin_str, linear, cfg_of, nodes_where
 from ..tables import C09_DIM_EXCEPTIONS, C09_SIZE_EXCEPTIONS
 
 EXPLANATION = (
@@ -27,6 +27,7 @@ EXPLANATION = (
     ' Round 4: (11) OPTCALL (see C08.13); C09.10 now requires both bounds of the requested row and reports a missing one.'
     ' Round-4 triage: (12) Columns hit-testing skips hidden columns like render(); (13) ScrollBar.mouse_event subtracts the bar width from the column under the same side test under which render() draws the bar on the left. Round-5 triage: (14) Padding / Filler forward a mouse event only after a bounds test on every size branch.'
     ' Round 6: (15) ALIAS: the coords / shortcuts dictionaries a canvas edits in place (set_cursor, overlay, _drop_trimmed_cursor) only ever hold an object of its own - CompositeCanvas(canv) sharing canv.coords would write the top widget\'s cursor into the cached bottom canvas; Frame.keypress body size is compared with render (exception removed).'
+    ' (16) every screen-order use of ListBox\'s bottom-up fill_above reverses it first; (17) a computed cursor column rejected on one side of the widget is rejected on the other side too.'
 )
 NOT_DECIDED = (
     "Agreement with the rendered canvas cursor (needs canvas semantics), loops of Pile/Columns/ListBox that accumulate offsets (equivalence of different loop shapes is not syntactic), "
@@ -571,6 +572,55 @@ def rule_visible_order(ctx: Ctx) -> RuleResult:
     return rr
 
 
+def rule_two_sided(ctx: Ctx, clause="C09.17") -> RuleResult:
+    """A leaf widget that computes its cursor column from the text layout (calc_coords) and refuses to report it when it
+    lies beyond the right edge (`if maxcol <= x: return None`) does not trust the layout to keep the column inside the
+    widget - then the left edge needs the same care: with wrap='clip' and right / centre alignment the layout starts
+    at a negative column.  A get_cursor_coords() that rejects the computed column against the width on one side
+    rejects it against 0 on the other (one-sided comparison: 'x >= maxcol handled, x < 0 not')."""
+    from ..rules.runpos import _atoms
+
+    p = ctx.p
+    rr = RuleResult("POSBOUND", clause, "a get_cursor_coords() that rejects its computed column beyond the right edge also rejects a negative one", floor=1)
+    for fi in p.functions.values():
+        if fi.name != "get_cursor_coords" or not fi.module.name.startswith("urwid.widget") or fi.is_lambda:
+            continue
+        # columns computed here: first element unpacked from a calc_coords(...) call
+        cols = {n.targets[0].elts[0].id for n in fi.own_nodes() if isinstance(n, ast.Assign) and isinstance(n.value, ast.Call) and callee_name(n.value) == "calc_coords" and isinstance(n.targets[0], ast.Tuple) and n.targets[0].elts and isinstance(n.targets[0].elts[0], ast.Name)}
+        if not cols:
+            continue
+        cfg = cfg_of(fi)
+        for x in sorted(cols):
+            upper = lower = False
+            for t in cfg.nodes:
+                if t.kind != "test":
+                    continue
+                rejects_on = [lab for tg, lab in t.succ if lab in ("T", "F") and tg.kind == "return" and isinstance(tg.ast.value, ast.Constant) and tg.ast.value.value is None]
+                for lab in rejects_on:
+                    for e, o in _atoms(t.ast, lab == "T") if lab == "T" else []:
+                        pass
+                # facts that hold where the coordinate is *kept*: the other edge of a rejecting test
+                for lab in rejects_on:
+                    keep = lab != "T"
+                    for e, o in _atoms(t.ast, keep):
+                        names = {k for k in e if k}
+                        if x not in names:
+                            continue
+                        cx = e[x]
+                        # kept under  x - W < 0  (cx > 0, op <)  or  W - x > 0
+                        if len(names) == 2 and ((cx > 0 and o == "<") or (cx < 0 and o == ">")):
+                            upper = True
+                        # kept under  x >= 0  /  -x <= 0
+                        if names == {x} and ((cx > 0 and o in (">=", ">")) or (cx < 0 and o in ("<=", "<"))):
+                            lower = True
+            if not upper and not lower:
+                continue
+            rr.inst(f"{short(fi)}: {x}", True, {"method": short(fi), "column": x, "rejected_beyond_the_right_edge": upper, "rejected_below_zero": lower})
+            if upper != lower:
+                rr.add(finding("POSBOUND", fi, fi.node, f"{short(fi)}() refuses to report the column `{x}` {'beyond the right edge' if upper else 'below 0'} but not {'below 0' if upper else 'beyond the right edge'}: with wrap='clip' and right / centre alignment the layout puts the cursor at a negative column, which is reported (and rendered) as a cursor outside the widget", construct=f"column {x} checked on one side only"))
+    return rr
+
+
 def run(ctx: Ctx):
     p = ctx.p
     return [
@@ -585,6 +635,7 @@ def run(ctx: Ctx):
         accum.run_accum(p, "C09.9", "C09", floor=3),
         rule_edit_row_range(ctx),
         rule_visible_order(ctx),
+        rule_two_sided(ctx),
         alias.run_inplace_own(p, "C09.15", ["urwid.canvas"], floor=6, exempt={"shards": "shared on purpose, copy-on-write decided by FRESHLIST (C06.2c)"}),
         optcall.run_optcall(p, "C09.11", ("urwid.widget",), floor=35),
         rule_hidden_columns(ctx),
@@ -601,6 +652,8 @@ _PIL = "urwid/widget/pile.py"
 _COL = "urwid/widget/columns.py"
 _BOX = "urwid/widget/box_adapter.py"
 MUTANTS = [
+    Mut("icon-cursor-right-edge-only", "urwid/widget/wimp.py", "SelectableIcon.get_cursor_coords", "        if not 0 <= x < maxcol:", "        if maxcol <= x:", "POSBOUND|widget.wimp.SelectableIcon.get_cursor_coords|column x checked on one side only"),
+    Mut("twin-icon-cursor-two-tests", "urwid/widget/wimp.py", "SelectableIcon.get_cursor_coords", "        if not 0 <= x < maxcol:", "        if x < 0 or maxcol <= x:", twin=True),
     Mut("listbox-mouse-fill-above-not-reversed", "urwid/widget/listbox.py", "ListBox.mouse_event", "        fill_above.reverse()  # fill_above is in bottom-up order\n", "", "SIB|widget.listbox.ListBox.mouse_event|fill_above used in screen order without reverse()"),
     Mut("listbox-render-fill-above-not-reversed", "urwid/widget/listbox.py", "ListBox.render", "        fill_above.reverse()  # fill_above is in bottom-up order\n", "", "SIB|widget.listbox.ListBox.render|fill_above used in screen order without reverse()", error_ok=True),
     Mut("frame-keypress-own-body-height", "urwid/widget/frame.py", "Frame.keypress", "        (htrim, ftrim), _orig = self.frame_top_bottom((maxcol, maxrow), True)\n        remaining = maxrow - htrim - ftrim\n", "        remaining = maxrow\n        if self.header is not None:\n            remaining -= self.header.rows((maxcol,))\n        if self.footer is not None:\n            remaining -= self.footer.rows((maxcol,))\n", "GEOM|widget.frame.Frame.keypress"),
